@@ -140,7 +140,8 @@ def run(ctx):
 
 def _schema(ctx, py):
     t0 = time.time()
-    ts = [RSym(sp.Symbol("t%d" % i, real=True)) for i in range(4)]
+    from pvx.sym import increasing_stamps
+    ts = [RSym(x) for x in increasing_stamps(4)]
     g = [[RSym(sp.Symbol("g%d%d" % (i, j), real=True)) for j in range(3)] for i in range(4)]
     a = [[RSym(sp.Symbol("f%d%d" % (i, j), real=True)) for j in range(3)] for i in range(4)]
     for st in ("rate", "increment"):
